@@ -410,7 +410,14 @@ func BufferWhen[T, B any](boundary Observable[B]) func(Observable[T]) Observable
 			buffer := []T{}
 			mu := xsync.NewMutexWithSpinlock()
 
+			// Taking the buffer and delivering it is one step: a flush running on another
+			// goroutine must not deliver a younger buffer (or complete) in between.
+			var muFlush sync.Mutex
+
 			flush := func(ctx context.Context) {
+				muFlush.Lock()
+				defer muFlush.Unlock()
+
 				// send even if buffer is empty
 				mu.Lock()
 
@@ -492,7 +499,14 @@ func BufferWithTimeOrCount[T any](size int, duration time.Duration) func(Observa
 			buffer := []T{}
 			mu := xsync.NewMutexWithSpinlock()
 
+			// Taking the buffer and delivering it is one step: a flush running on another
+			// goroutine must not deliver a younger buffer (or complete) in between.
+			var muFlush sync.Mutex
+
 			flush := func(ctx context.Context) {
+				muFlush.Lock()
+				defer muFlush.Unlock()
+
 				// send even if buffer is empty
 				mu.Lock()
 
